@@ -56,6 +56,9 @@ pub fn main(tier: &str, seed: u64, n_override: Option<u64>) {
                 && (cx1 + 2.0 * -r.p.a1).abs() > 0.0;
             let j = r.from_model(&q);
             let pose = pose_of(&r, &j);
+            // ... and the sensitivity of the arm to the 0.125 um shift, computed on the independent link chain: the orientation error the
+            // recovered candidate is predicted to have (solver's acceptance: 1e-6 rad); "well conditioned" = below half of that for some shift
+            let well = well && recovery_error(&r, &j, &pose) < 0.5e-6;
             let _ = H::take_trace();
             let sols = k.inverse_continuing(&pose, &j);
             let cands: Vec<(Joints, bool)> = H::take_trace().into_iter().filter_map(|e| if let H::Event::Candidate(c, v) = e { Some((c, v)) } else { None }).collect();
@@ -89,4 +92,48 @@ pub fn main(tier: &str, seed: u64, n_override: Option<u64>) {
                 .raw("first", &if sols.is_empty() { "null".to_string() } else { fxs(&sols[0]) }).s("direct", direct).s("class", &class).done());
         }
     }
+}
+
+/// Predicted orientation error of the singular recovery, from the independent link chain only.  For each of the three shifted
+/// poses: move J1..J3 (Newton on the wrist centre of the reference chain) so that the wrist centre follows the shift, read the wrist
+/// angles the pose then needs (Rz Ry Rz), redistribute J4/J6 around the previous values keeping their sum, and measure how far the
+/// rotation of that candidate is from the requested one - for the row and for its wrist-flipped twin (whichever the solver meets
+/// first), taking the worse.  Returns the best (smallest) such error over the three shifts.
+fn recovery_error(r: &Robot, j: &Joints, pose: &rs_opw_kinematics::kinematic_traits::Pose) -> f64 {
+    use nalgebra::{Matrix3, Rotation3, Vector3};
+    let p = &r.p;
+    let rm = |m: &[[f64; 3]; 3]| Matrix3::new(m[0][0], m[0][1], m[0][2], m[1][0], m[1][1], m[1][2], m[2][0], m[2][1], m[2][2]);
+    let rz = |a: f64| Rotation3::from_axis_angle(&Vector3::z_axis(), a).into_inner();
+    let ry = |a: f64| Rotation3::from_axis_angle(&Vector3::y_axis(), a).into_inner();
+    let wrap = |mut a: f64| { while a > PI { a -= 2.0 * PI } while a < -PI { a += 2.0 * PI } a };
+    let want_r = rm(&pose_to_ref(pose).r);
+    let prev = r.to_model(j);
+    let wc = |jj: &Joints| { let c = ref_chain(p, jj); Vector3::new(c[4].t[0], c[4].t[1], c[4].t[2]) };
+    let mut best = f64::INFINITY;
+    for d in 1..4 {
+        let sp = shifted(pose, d);
+        let target = sp.translation.vector - want_r * Vector3::new(0.0, 0.0, p.c4);
+        let mut jj = *j;
+        for _ in 0..3 {
+            let c0 = wc(&jj);
+            let h = 1e-6;
+            let mut jac = Matrix3::zeros();
+            for i in 0..3 { let mut jp = jj; jp[i] += h; let mut jn = jj; jn[i] -= h; let col = (wc(&jp) - wc(&jn)) / (2.0 * h); for a in 0..3 { jac[(a, i)] = col[a]; } }
+            match jac.try_inverse() { Some(inv) => { let dq = inv * (target - c0); for i in 0..3 { jj[i] += dq[i]; } } None => return f64::INFINITY }
+        }
+        if (wc(&jj) - target).norm() > 1e-10 { continue; }
+        let r0c = rm(&ref_chain(p, &jj)[2].r);
+        let w = r0c.transpose() * want_r;                      // = Rz(t4) Ry(t5) Rz(t6)
+        let t5 = w[(2, 2)].clamp(-1.0, 1.0).acos();
+        let (t4, t6) = (w[(1, 2)].atan2(w[(0, 2)]), w[(2, 1)].atan2(-w[(2, 0)]));
+        let jd = wrap((t4 + t6) - (prev[3] + prev[5])) / 2.0;
+        let mut worst = 0.0f64;
+        for sgn in [1.0, -1.0] {
+            let cand = rz(prev[3] + jd) * ry(sgn * t5) * rz(prev[5] + jd);
+            let e = Rotation3::from_matrix_unchecked(cand.transpose() * w).angle();
+            worst = worst.max(e);
+        }
+        best = best.min(worst);
+    }
+    best
 }
